@@ -133,6 +133,8 @@ type Liab struct {
 	T    string `json:"t"`
 	Owed Digits `json:"owed"`
 	Note string `json:"note,omitempty"`
+	// Strict: the contract's balance of this token moves with its locked entries alone (see observe.go)
+	Strict bool `json:"strict"`
 }
 
 // Event is one line of the abstract trace (fields unused by an event kind are omitted).
